@@ -95,8 +95,13 @@ PROPS = {
     "C14": dict(corpora=["conc"], prefix="C14.", design=[("MCPool.tla", "pool_conc2.cfg")],
                 design_thorough=[("MCPool.tla", "pool_conc.cfg")]),
     "C15": dict(corpora=["history"], prefix="C15.", design=[("MCPool.tla", "pool_seq.cfg")]),
-    "C16": dict(corpora=["flow"], prefix="C16.", design=[("Flow.tla", "flow_ok.cfg"), ("MCFramingW.tla", "framingw_W1_reframe.cfg"),
-                                                          ("MCFramingW.tla", "framingw_W3_strip.cfg")]),
+    "C16": dict(corpora=["flow"], prefix="C16.", design=[("Flow.tla", "flow_ok.cfg"), ("Flow.tla", "flow_cstream_ok.cfg"),
+                                                          ("MCFramingW.tla", "framingw_W1_reframe.cfg"),
+                                                          ("MCFramingW.tla", "framingw_W3_strip.cfg")],
+                # the liveness model must deadlock without a flush per message, with a flush only where further
+                # replies can follow (client-streaming shape), with a reader look-ahead, with a buffering writer
+                whatif=[("Flow.tla", "flow_noflush.cfg"), ("Flow.tla", "flow_cstream_flushstreamsonly.cfg"),
+                        ("Flow.tla", "flow_readahead.cfg"), ("Flow.tla", "flow_buffered.cfg")]),
     "C17": dict(corpora=["config"], prefix="C17."),
     "C19": dict(corpora=["stream_get", "stream_matrix"], prefix="C19."),
     "C18": dict(corpora=["stream_reject", "stream_matrix", "stream_faults"], prefix="C18."),
@@ -336,7 +341,7 @@ def check(pid, tier, seed, work, t0):
     for module, cfg in prop.get("whatif", []):
         log("[what-if] tlc %s %s (must be rejected)" % (module, cfg))
         g = vlib.run_tlc(work, module, cfg, timeout=1800)
-        if g["ok"] or not any("is violated" in e for e in g["errors"]):
+        if g["ok"] or not any("is violated" in e or "Deadlock reached" in e for e in g["errors"]):
             raise Inconclusive("what-if model %s/%s was not rejected by TLC: the design check would be vacuous" % (module, cfg))
         design["whatif:" + cfg] = dict(rejected=True, states=g["distinct"])
     for module, cinit, inv, want in prop.get("apalache", []):
